@@ -38,7 +38,7 @@ def cases(combo, nsens):
     def _c(draw):
         m = draw(models.model_specs(names="ident", n_state=(1, 3), n_control=(1, 2), n_calib=(1, 2),
                                     n_sensors=(nsens, nsens), n_readings=(1, 3), depth=2, sensor_depth=2, combo=combo,
-                                    euler="bounded", innovation=("none", "k")))
+                                    euler="bounded", innovation=("none", "k"), allow_positive=False))
         n = len(m["state"])
         # "any configured maximum step": values that do not fit a fixed number of decimals, and very small ones
         m["config"]["max_dt"] = draw(st.sampled_from([0.1, 0.05, 0.01, 0.25, 1.0, 1.0 / 3.0, 0.0123456789, 0.7654321098,
